@@ -88,4 +88,16 @@ CHECKS = {
         bounds=dict(quick="capacity 1..4, values {1,2,9}; io histories to depth 6", thorough="capacity 1..5; io histories to depth 8"),
         assumptions=["values outside the alphabet behave like those inside (the buffer is parametric in T)", "io BFS is depth-bounded (reported as a cap); the buffer BFS is complete for each capacity"],
     ),
+    "C19": dict(
+        families=lambda tier: [fam("addset", shards=8, crumbs=True), fam("access", shards=2, crumbs=True)],
+        rule="(addset) every stack-id vector up to length K over the 12 stack ids and the invalid ids 0, 13, -1, on a fully and a half populated state: LIST.ADD (reference row + conservation of the multiset of atoms over all stacks and record contents + LIST.GET followed by step* puts the literal items back in their original order and leaves the record), LIST.SET x CODE depth 0..3 x position in {-1,0,1,2,3,MAX} (exactly the addressed record changes, nothing is lost); (access) LIST.REMOVE / LIST.GET / LIST.BVAL / IVAL / FVAL over CODE stacks of 0..4 items (nested records, empty list, atom, NaN) x positions {MIN,-1..3,MAX} x n in {MIN,-1,0,1,2,5,MAX}; all by NAME through step against the reference rows",
+        bounds=dict(quick="K=3 (3616 vectors; LIST.SET for K<=2)", thorough="K=4 (54241 vectors)"),
+        assumptions=["record contents are compared structurally incl. kinds"],
+    ),
+    "C20": dict(
+        families=lambda tier: [fam("geometry", shards=12, crumbs=True), fam("instr", shards=8, crumbs=True)],
+        rule="(geometry) Topology::find_neighbors for every ntotal in 1..N and every perfect power up to P (the powf shortcut), ndim 1..4 (5 for powers), every centre (corners/middle/last for the large powers), 14 radii (exact lattice distances 0,1,2,3,5 and values strictly between lattice distances, 100): equals the brute-force Euclidean ball computed in integer arithmetic in the smallest enclosing hypercube; laws checked on the implementation's own answers: contains the centre, ascending, no repeats, all < ntotal, symmetric over all pairs, monotone in the radius; decompose_index is a bijection onto the hypercube; invalid parameters give nothing; (instr) LIST.NEIGHBOR*IDS/BVALS/IVALS/FVALS by NAME over all operand tuples of clamping classes (size, index, dims, position incl. MIN/MAX; radius incl. negative, NaN, inf) and CODE stacks of 0/3/9 records",
+        bounds=dict(quick="N=64, P=1296", thorough="N=343, P=4096"),
+        assumptions=["radii are exactly representable lattice distances or lie strictly between lattice distances, so float rounding cannot flip the reference"],
+    ),
 }
